@@ -63,6 +63,10 @@ def gen_tables(rng, tier, max_h=40, max_p=80):
                         'logM1_EL': rng.uniform(11.3, 14.2), 'alpha_EL': rng.uniform(0.3, 1.6)}
                 keys = list(conf) if rng.random() < 0.5 else rng.sample(list(conf), rng.randrange(1, 4))
                 d.update({k: conf[k] for k in keys})
+        # the optional keys (documented defaults: 0 for the assembly-bias terms, 1 for ic) are left out now and then
+        for k in ('Acent', 'Asat', 'Bcent', 'Bsat', 'ic', 'Ccent', 'Csat'):
+            if k in d and rng.random() < 0.15:
+                del d[k]
         return d
     return {'L': L, 'halos': halos, 'parts': parts, 'tracers': {t: tr(t) for t in tracers},
             'Mpart': 2.1e9, 'velz2kms': rng.uniform(20.0, 200.0),
